@@ -14,6 +14,8 @@ package fasthttp
 import (
 	"bufio"
 	"bytes"
+	"crypto/tls"
+	"crypto/x509"
 	"errors"
 	"fmt"
 	"math/rand"
@@ -28,6 +30,11 @@ import (
 
 	"github.com/valyala/fasthttp/fasthttputil"
 )
+
+var c38TLS struct {
+	srv  *tls.Config
+	pool *x509.CertPool
+}
 
 type c38Logger struct{}
 
@@ -88,6 +95,7 @@ type c38Mode struct {
 	kind  string        // answer, stall, close, refuse
 	delay time.Duration // answer: per response
 	after int           // close: after this many requests (0 = at once)
+	slowFirst time.Duration // answer: the first request of the connection is answered this late (but it is answered)
 }
 
 type c38Net struct {
@@ -98,6 +106,7 @@ type c38Net struct {
 	ndials  int
 	nconns  int
 	servers []net.Conn
+	tlsConf *tls.Config // set: the servers speak TLS
 }
 
 func (n *c38Net) dial(addr string) (net.Conn, error) {
@@ -116,9 +125,13 @@ func (n *c38Net) dial(addr string) (net.Conn, error) {
 	n.nconns++
 	id := n.nconns
 	pc := fasthttputil.NewPipeConns()
+	var sc net.Conn = pc.Conn2()
+	if n.tlsConf != nil {
+		sc = tls.Server(sc, n.tlsConf)
+	}
 	n.servers = append(n.servers, pc.Conn2())
 	n.mu.Unlock()
-	go n.serve(id, m, pc.Conn2())
+	go n.serve(id, m, sc)
 	return &c38Conn{Conn: pc.Conn1(), id: id, rec: n.rec}, nil
 }
 
@@ -147,6 +160,9 @@ func (n *c38Net) serve(id int, m c38Mode, conn net.Conn) {
 		}
 		if m.delay > 0 {
 			time.Sleep(m.delay)
+		}
+		if got == 1 && m.slowFirst > 0 {
+			time.Sleep(m.slowFirst)
 		}
 		n.rec.emit(vfRec{"ev": "resp", "c": id, "id": rid})
 		body := fmt.Sprintf("id=%d", rid)
@@ -184,10 +200,19 @@ type c38Cfg struct {
 	modes       []c38Mode
 	callers     [][]c38Call
 	name        string
+	readTimeout time.Duration // PipelineClient.ReadTimeout
+	tls         string        // "": plaintext; "ok": IsTLS with a usable TLSConfig; "bad": IsTLS with an Addr no server name can be derived from
 }
 
 func (c c38Cfg) String() string {
-	return fmt.Sprintf("%s p=%d conns=%d mode=%s", c.name, c.p, c.maxConns, c.modes[0].kind)
+	x := ""
+	if c.readTimeout > 0 {
+		x += " readtimeout"
+	}
+	if c.tls != "" {
+		x += " tls=" + c.tls
+	}
+	return fmt.Sprintf("%s p=%d conns=%d mode=%s%s", c.name, c.p, c.maxConns, c.modes[0].kind, x)
 }
 
 const c38Slack = 1500 * time.Millisecond
@@ -219,7 +244,7 @@ type c38Out struct {
 
 // c38DoCall performs one call and classifies its result; a panic inside the client call is a
 // result of its own.
-func c38DoCall(pcl *PipelineClient, rec *c38Rec, id int, cl c38Call, outs []c38Out) {
+func c38DoCall(pcl *PipelineClient, rec *c38Rec, id int, cl c38Call, outs []c38Out, connTimeouts bool) {
 	var req Request
 	var resp Response
 	req.SetRequestURI(fmt.Sprintf("http://pc.test/c38/%d", id))
@@ -256,6 +281,11 @@ func c38DoCall(pcl *PipelineClient, rec *c38Rec, id int, cl c38Call, outs []c38O
 	rec.mu.Lock()
 	o := outs[id-1]
 	o.class, o.returned = c38Class(err), true
+	if !cl.deadline && o.class == "timeout" && connTimeouts {
+		// a Do call has no deadline of its own: with ReadTimeout configured, ErrTimeout is the
+		// connection's read timeout, i.e. a connection error
+		o.class = "connerr"
+	}
 	if err != nil {
 		o.err = err.Error()
 		if strings.HasPrefix(o.err, "PANIC") {
@@ -303,7 +333,18 @@ func c38RunOne(trNo int, cfg c38Cfg) (evs []vfRec, key, detail string, stats map
 	rec := &c38Rec{txIDs: map[int]int{}, srvIDs: map[int]int{}}
 	nw := &c38Net{rec: rec, modes: cfg.modes}
 	pcl := &PipelineClient{Addr: "pc.test:80", Dial: nw.dial, MaxConns: cfg.maxConns, MaxPendingRequests: cfg.p,
-		Logger: c38Logger{}, NoDefaultUserAgentHeader: true, MaxIdleConnDuration: 50 * time.Millisecond}
+		Logger: c38Logger{}, NoDefaultUserAgentHeader: true, MaxIdleConnDuration: 50 * time.Millisecond,
+		ReadTimeout: cfg.readTimeout}
+	switch cfg.tls {
+	case "ok":
+		pcl.IsTLS, pcl.Addr = true, "pc.test:443"
+		pcl.TLSConfig = &tls.Config{RootCAs: c38TLS.pool}
+		nw.tlsConf = c38TLS.srv
+	case "bad":
+		// no server name can be derived from this address and none is configured: every call
+		// fails with the configuration error - and returns
+		pcl.IsTLS, pcl.Addr = true, "::1"
+	}
 	rec.emit(vfRec{"ev": "init", "p": cfg.p, "nids": 32, "nconns": 64, "tr": trNo})
 	ncalls := 0
 	for _, cs := range cfg.callers {
@@ -332,7 +373,7 @@ func c38RunOne(trNo int, cfg c38Cfg) (evs []vfRec, key, detail string, stats map
 			defer wg.Done()
 			for k, cl := range cs {
 				time.Sleep(cl.delay)
-				c38DoCall(pcl, rec, first+k, cl, outs)
+				c38DoCall(pcl, rec, first+k, cl, outs, cfg.readTimeout > 0)
 			}
 		}(first, cs, wg)
 	}
@@ -372,8 +413,8 @@ func c38RunOne(trNo int, cfg c38Cfg) (evs []vfRec, key, detail string, stats map
 	if key, detail = c38Judge(cfg, rec, outs, stats); key != "" {
 		return nil, key, detail, stats
 	}
-	if stats["do_calls_abandoned"] > 0 {
-		return nil, "", "", stats // incomplete log: direct checks only
+	if stats["do_calls_abandoned"] > 0 || cfg.tls != "" {
+		return nil, "", "", stats // incomplete log / the wire is encrypted: direct checks only
 	}
 	return rec.evs, "", "", stats
 }
@@ -383,12 +424,17 @@ func TestVerifC38Pipeline(t *testing.T) {
 	rng := vfRand()
 	ntr := vfEnvInt("VERIF_C38_TRACES", 24)
 	tw := vfNewTrace(t, "pc_trace.ndjson")
+	if srv, pool, err := clSelfSigned([]string{"pc.test"}); err == nil {
+		c38TLS.srv, c38TLS.pool = srv, pool
+	} else {
+		t.Fatalf("certificate: %v", err)
+	}
 	timeouts := []time.Duration{80 * time.Millisecond, 150 * time.Millisecond, 300 * time.Millisecond}
 	total := map[string]int{}
 	events, evals, written := 0, 0, 0
 	for i := 1; i <= ntr; i++ {
 		cfg := c38Cfg{p: 1 + rng.Intn(2), maxConns: 1 + rng.Intn(2), name: "mixed"}
-		switch i % 8 {
+		switch i % 10 {
 		case 0:
 			cfg.modes = []c38Mode{{kind: "answer"}}
 		case 1:
@@ -401,6 +447,21 @@ func TestVerifC38Pipeline(t *testing.T) {
 			cfg.modes = []c38Mode{{kind: "refuse"}}
 		case 5:
 			cfg.modes = []c38Mode{{kind: "close", after: 1}, {kind: "stall"}}
+		case 6:
+			// ReadTimeout: the first request of a connection is answered later than ReadTimeout
+			// (but it is answered); further requests follow
+			cfg.name = "readtimeout"
+			cfg.maxConns = 1
+			cfg.readTimeout = 100 * time.Millisecond
+			cfg.modes = []c38Mode{{kind: "answer", slowFirst: time.Duration(220+rng.Intn(80)) * time.Millisecond}, {kind: "answer"}}
+		case 7:
+			cfg.name = "tls"
+			cfg.tls = "ok"
+			cfg.modes = []c38Mode{{kind: "answer", delay: time.Duration(rng.Intn(60)) * time.Millisecond}}
+		case 8:
+			cfg.name = "tls"
+			cfg.tls = "bad"
+			cfg.modes = []c38Mode{{kind: "answer"}}
 		default:
 			// late answers: calls time out and the same goroutine calls again at once, while the
 			// answers to the timed-out requests are still arriving
@@ -408,7 +469,27 @@ func TestVerifC38Pipeline(t *testing.T) {
 			cfg.maxConns = 1
 			cfg.modes = []c38Mode{{kind: "answer", delay: time.Duration(90+rng.Intn(60)) * time.Millisecond}}
 		}
-		if cfg.name == "late" {
+		if cfg.modes[0].kind == "answer" && cfg.modes[0].delay > 0 && cfg.tls == "" && cfg.name == "mixed" && rng.Intn(2) == 0 {
+			cfg.readTimeout = 150 * time.Millisecond // ReadTimeout is a dimension of the ordinary scenarios too
+		}
+		if cfg.name == "readtimeout" {
+			// the reconnect after a read timeout is throttled by 1 s: the follow-up calls wait long enough
+			for c := 0; c < 2; c++ {
+				seq := []c38Call{{deadline: true, viaTO: c == 0, timeout: 2500 * time.Millisecond, delay: time.Duration(c*20) * time.Millisecond}}
+				for k := 0; k < 2; k++ {
+					seq = append(seq, c38Call{deadline: true, viaTO: rng.Intn(2) == 0, timeout: 2500 * time.Millisecond})
+				}
+				cfg.callers = append(cfg.callers, seq)
+			}
+		} else if cfg.tls == "bad" {
+			for c := 0; c < 2; c++ {
+				var seq []c38Call
+				for k := 0; k < 3; k++ {
+					seq = append(seq, c38Call{deadline: true, viaTO: rng.Intn(2) == 0, timeout: timeouts[rng.Intn(len(timeouts))]})
+				}
+				cfg.callers = append(cfg.callers, seq)
+			}
+		} else if cfg.name == "late" {
 			for c := 0; c < 2+rng.Intn(2); c++ {
 				var seq []c38Call
 				for k := 0; k < 3+rng.Intn(2); k++ {
@@ -436,6 +517,9 @@ func TestVerifC38Pipeline(t *testing.T) {
 		evals++
 		for k, v := range st {
 			total[k] += v
+			if cfg.tls != "" || cfg.readTimeout > 0 {
+				total[strings.TrimSpace(cfg.name+" tls="+cfg.tls)+":"+k] += v
+			}
 		}
 		if key != "" {
 			vfViol("direct:"+key, detail, vfRec{"trace": i, "cfg": fmt.Sprintf("%+v", cfg)})
@@ -645,7 +729,7 @@ func TestVerifC38HeldWrite(t *testing.T) {
 		var wg sync.WaitGroup
 		call := func(id int, cl c38Call) {
 			wg.Add(1)
-			go func() { defer wg.Done(); c38DoCall(pcl, rec, id, cl, outs) }()
+			go func() { defer wg.Done(); c38DoCall(pcl, rec, id, cl, outs, false) }()
 		}
 		waitFor := func(cond func() bool, d time.Duration) bool {
 			end := time.Now().Add(d)
